@@ -12,7 +12,7 @@ from vlib import ctl, engine, wf
 
 PROPERTY = "C05"
 LEVEL = "exploration"
-RULE = ("2-5 calls of one of {ctx_read, ctx_child, dflt_ctx} with identical arguments and contexts drawn from "
+RULE = ("2-5 calls of one of {ctx_read, ctx_child, dflt_ctx, dflt_task (task-call default)} with identical arguments and contexts drawn from "
         "{none, {k:{sub:1}}, {k:{sub:2}}, {k:5}, {other:1}}, combined by seq / list / a parent job carrying its own "
         "override, executed in 1-3 executions (different run contexts) on one backend, check_valid full or shallow.  "
         "Non-trivial = distinct program in which two calls with equal arguments have different effective contexts.")
@@ -29,13 +29,13 @@ def gen_call(rnd, task, shallow):
         opts["ctx"] = ctxv
     if shallow:
         opts["options"] = {"check_valid": "shallow"}
-    if task == "dflt_ctx":
-        return ["call", "dflt_ctx", [["val", 0]], {}, opts], ctxv
+    if task in ("dflt_ctx", "dflt_task"):
+        return ["call", task, [["val", 0]], {}, opts], ctxv
     return ["call", task, [["val", "k.sub"], ["val", "none"]], {}, opts], ctxv
 
 
 def gen_program(rnd):
-    task = rnd.choice(["ctx_read", "ctx_child", "dflt_ctx", "ctx_child"])
+    task = rnd.choice(["ctx_read", "ctx_child", "dflt_ctx", "ctx_child", "dflt_task", "dflt_task"])
     shallow = rnd.random() < 0.4
     n = rnd.randint(2, 5)
     calls, ctxs = [], []
